@@ -119,6 +119,27 @@ def run(ctx):
         pair_results = pool.map(roundtrip_pair, pair_jobs, chunksize=4)
         mod_jobs = [tuple(s["toks"]) for s in rng.sample(chosen, min(len(chosen), 60 if q else 600))]
         mod_results = pool.map(roundtrip_after_modification, mod_jobs, chunksize=4)
+        # sentences with one stray token (a second ';', a ';' behind a block, a literal too many): outside the generator automaton. A parser
+        # may refuse them; one that accepts them has accepted every token and owes every token back
+        stray_jobs = []
+        for s_ in rng.sample(chosen, min(len(chosen), 80 if q else 800)):
+            toks_ = list(s_["toks"])
+            spots = [i for i, t in enumerate(toks_) if t in (";", "}")]
+            if not spots:
+                continue
+            for tok_ in (";", '"stray"'):
+                i_ = rng.choice(spots + [len(toks_) - 1])
+                stray_jobs.append(tuple(toks_[: i_ + 1] + [tok_] + toks_[i_ + 1 :]))
+        stray_results = pool.map(roundtrip, stray_jobs, chunksize=8)
+    n_accepted = 0
+    for toks, res in zip(stray_jobs, stray_results):
+        ctx.evaluations += 1
+        if res["kind"] in ("ok", "tokens_differ", "tree_differs", "regenerated_text_rejected", "regenerated_text_unlexable"):
+            n_accepted += 1
+        if res["kind"] not in ("ok", "rejected"):
+            ctx.violation("profile text round trip disagrees with the generator automaton", {"op": "C2Profile.as_text", "failed": "accepted_source_" + res["kind"], "token": None},
+                          {"tokens": list(toks)[:60], **{k: v for k, v in res.items() if k != "text"}})
+    ctx.notes["stray_token_sources"] = {"tried": len(stray_jobs), "accepted_by_the_parser": n_accepted}
     for toks, res in zip(mod_jobs, mod_results):
         ctx.evaluations += 1
         if res["kind"] != "ok":
